@@ -21,7 +21,7 @@ from engine.cfg import call_name, cfg_of
 from engine.errors import AnalysisError
 from engine.flow import Resident, is_table_expr
 from engine.repo import walk_no_nested
-from engine.util import calls_in, dotted, local_assignments, unparse
+from engine.util import calls_in, dotted, local_assignments, unparse, xsrc
 
 from .c02 import TABLE_MUTATORS, commit_closure, transaction_classes
 
@@ -203,7 +203,7 @@ def run(ctx):  # noqa: C901, PLR0912, PLR0915
     n_new = 0
     for fi in api_funcs:
         g = cfg_of(fi)
-        src = unparse(fi.node)
+        src = xsrc(fi)
         for n, c in g.nodes_calling('TransactionItem'):
             args = {}
             for i, a in enumerate(c.args):
